@@ -36,8 +36,16 @@ type RunResult struct {
 	Nontrivial bool                   `json:"nontrivial"`
 	Notes      []string               `json:"notes,omitempty"`
 	Cases      int                    `json:"cases,omitempty"`
+	More       []Viol                 `json:"more,omitempty"`
 	// Findings: violations of listed (known) classes seen in this run, class -> count.
 	Extra map[string]interface{} `json:"extra,omitempty"`
+}
+
+// Viol is an additional violation class seen in the same run.
+type Viol struct {
+	Class  string `json:"class"`
+	Detail string `json:"detail"`
+	Count  int    `json:"count,omitempty"`
 }
 
 // Run is the context a scenario executes in.
